@@ -667,6 +667,18 @@ def stmt(st, cx, kern, out):
             return
         if any(s[0] == "clear1" for s in b):
             raise TranslateError("single-cell zeroing of _bp_padded inside a larger loop body")
+        # a loop whose only statement copies projection[S + v] to _bp_padded[D + v] is std::copy_n(proj + S, bound, bp + D)
+        if len(b) == 1 and b[0][0] == "copy1":
+            v = ("v", cx.depth)
+            dp, sp = ix_poly(b[0][1]), ix_poly(b[0][2])
+            if dp.get((v,), 0) != 1 or sp.get((v,), 0) != 1 or any(v in m for m in dp if m != (v,)) or any(v in m for m in sp if m != (v,)):
+                raise TranslateError("copy loop does not index both buffers by base + counter")
+            dbase = ix_norm(("sub", b[0][1], v))
+            sbase = ix_norm(("sub", b[0][2], v))
+            out.append(("copy", sbase, bound, dbase))
+            return
+        if any(s[0] == "copy1" for s in b):
+            raise TranslateError("single-cell copy into _bp_padded inside a larger loop body")
         out.append(("for", bound, b))
         return
     if k == "IfStmt":
@@ -750,6 +762,15 @@ def stmt(st, cx, kern, out):
             if s[0] == "bp" and is_zero(rhs):
                 out.append(("clear1", s[1]))
                 return
+            if s[0] == "bp":
+                # `_bp_padded[D + x] = projection[S + x]` inside a counting loop over x: a copy written as a loop
+                try:
+                    r = subscript(rhs, cx)
+                except TranslateError:
+                    r = None
+                if r is not None and r[0] == "proj":
+                    out.append(("copy1", s[1], r[1]))
+                    return
             raise TranslateError("assignment to cell of buffer %s" % s[0])
         w = marray2(lhs, cx, "_wakepotential")
         if w is not None:
